@@ -481,7 +481,7 @@ def rule_opt_forms(model):
                 len(x.test.ops) == 1 and isinstance(
                     x.test.left, ast.Name) and isinstance(
                     x.test.comparators[0], ast.Name) and x.body and \
-                isinstance(x.body[0], ast.Assign) and not x.orelse:
+                isinstance(x.body[0], ast.Assign):
             l, r_ = x.test.left.id, x.test.comparators[0].id
             op = x.test.ops[0]
             small, big = (l, r_) if isinstance(op, (ast.Lt, ast.LtE)) else (
